@@ -625,7 +625,257 @@ func TestC20Stats(t *testing.T) {
 	}
 }
 
+// End to end: real client - Link - real server, both sides recording; per
+// RPC kind and outcome the client's and the server's event lists must equal the
+// model's lists for the exits taken.
 func TestC20E2E(t *testing.T) {
 	em := NewEmitter()
 	defer em.Close()
+	idx := 0
+	type method struct {
+		name string
+		desc *grpc.StreamDesc
+		path string
+	}
+	streams := []method{{"client-stream", descCStream, "/verif.Echo/CStream"}, {"server-stream", descSStream, "/verif.Echo/SStream"}, {"bidi", descBidi, "/verif.Echo/Bidi"}}
+	outcomes := []string{"ok", "handler-error", "handler-eof", "cancel", "deadline", "read-failure", "failed-open", "undecodable-metadata", "server-reset"}
+	for _, oc := range outcomes {
+		for mi := -1; mi < len(streams); mi++ {
+			if oc == "server-reset" && mi >= 0 {
+				continue // a server resets only what it cannot attach to a stream: reached here by a unary call to a stream method
+			}
+			for nh := 1; nh <= 3; nh++ {
+				if !anyWanted(idx, 2*nh) {
+					idx += 2 * nh
+					continue
+				}
+				em.Marker("begin", idx)
+				first := idx
+				ch, sh := newStatsSet(nh), newStatsSet(nh)
+				var cexit, sexit string
+				cfin, csucc, ssucc := true, false, false
+				var herr error
+				switch oc {
+				case "handler-error":
+					herr = (&hkind{kind: "status", code: 7, msg: "denied"}).err()
+				case "handler-eof":
+					herr = io.EOF
+				}
+				bubble(t, func(t *testing.T) {
+					l := NewLink(false)
+					l.Auto = oc != "undecodable-metadata"
+					release := make(chan struct{})
+					cmds := make(chan string)
+					acks := make(chan struct{})
+					var recvErr error
+					impl := &echoImpl{
+						unary: func(ctx context.Context, req []byte) ([]byte, bool, error) {
+							<-release
+							return req, true, herr
+						},
+						stream: func(kind string, ss grpc.ServerStream) error {
+							for c := range cmds {
+								switch c {
+								case "recv":
+									var m wrapperspb.BytesValue
+									recvErr = ss.RecvMsg(&m)
+								case "send":
+									ss.SendMsg(bv([]byte("r")))
+								}
+								acks <- struct{}{}
+							}
+							if herr == nil && recvErr != nil {
+								return recvErr
+							}
+							return herr
+						},
+					}
+					srv := newEchoServer("dst", impl, serverStats(sh)...)
+					ret := make(chan error, 1)
+					go func() { ret <- srv.Serve(context.Background(), l.S) }()
+					cc := goat.NewClientConn(l.C, "src", "dst", dialStats(ch)...)
+					ctx, cancel := context.WithCancel(context.Background())
+					defer cancel()
+					if oc == "deadline" {
+						var c2 context.CancelFunc
+						ctx, c2 = context.WithTimeout(ctx, time.Hour)
+						defer c2()
+					}
+					if oc == "failed-open" {
+						l.C.FailRead(errInjected)
+						synctest.Wait()
+					}
+					tamper := func() {
+						l.mu.Lock()
+						for _, e := range l.c2s {
+							e.Header.Headers = badMeta
+						}
+						l.Auto = true
+						l.mu.Unlock()
+						for l.StepC2S() {
+						}
+					}
+					if mi < 0 { // ---- unary
+						path := "/verif.Echo/Unary"
+						if oc == "server-reset" {
+							path = "/verif.Echo/Bidi"
+						}
+						done := make(chan error, 1)
+						var out wrapperspb.BytesValue
+						go func() { done <- cc.Invoke(ctx, path, bv([]byte("q")), &out) }()
+						synctest.Wait()
+						switch oc {
+						case "ok", "handler-error", "handler-eof":
+							close(release)
+						case "cancel":
+							cancel()
+						case "deadline":
+							time.Sleep(2 * time.Hour)
+						case "read-failure":
+							l.C.FailRead(errInjected)
+						case "undecodable-metadata":
+							tamper()
+						}
+						synctest.Wait()
+						err := <-done
+						csucc = err == nil
+						if oc == "cancel" || oc == "deadline" || oc == "read-failure" {
+							close(release) // the handler finishes on its own afterwards
+							synctest.Wait()
+						}
+						switch oc {
+						case "ok":
+							cexit, sexit, ssucc = "(XCU CU_ok)", "(XSU (SU_run DecOk RNil))", true
+						case "handler-error":
+							cexit, sexit = "(XCU CU_status)", "(XSU (SU_run DecOk RErr))"
+						case "handler-eof":
+							cexit, sexit = "(XCU CU_status)", "(XSU (SU_run DecOk REof))"
+						case "cancel", "deadline", "read-failure":
+							cexit, sexit, ssucc = "(XCU (CU_early RErr))", "(XSU (SU_run DecOk RNil))", true
+						case "failed-open":
+							cexit = "(XCU (CU_early RErr))"
+						case "undecodable-metadata":
+							cexit, sexit = "(XCU CU_status)", "(XSU SU_bad_metadata)"
+						case "server-reset":
+							cexit = "(XCU CU_malformed)"
+						}
+					} else { // ---- streams
+						m := streams[mi]
+						cs, err := cc.NewStream(ctx, m.desc, m.path)
+						synctest.Wait()
+						if err != nil {
+							cexit = "(XCS CSO_refused [])"
+						} else {
+							recv := func() error {
+								res := make(chan error, 1)
+								go func() { var mm wrapperspb.BytesValue; res <- cs.RecvMsg(&mm) }()
+								synctest.Wait()
+								select {
+								case e := <-res:
+									return e
+								default:
+									return fmt.Errorf("PENDING")
+								}
+							}
+							step := func(c string) { cmds <- c; <-acks; synctest.Wait() }
+							switch oc {
+							case "ok", "handler-error", "handler-eof":
+								cs.SendMsg(bv([]byte("m")))
+								synctest.Wait()
+								step("recv")
+								cs.CloseSend()
+								synctest.Wait()
+								step("send")
+								recv()
+								close(cmds)
+								synctest.Wait()
+								e := recv()
+								csucc = e == io.EOF
+								tr := "(PTrailer false)"
+								if oc == "ok" {
+									tr = "(PTrailer true)"
+								}
+								cexit = "(XCS CSO_ok [CSendOk; CCloseSend; PMsg; CRecvOk; " + tr + "])"
+								res := map[string]string{"ok": "RNil", "handler-error": "RErr", "handler-eof": "REof"}[oc]
+								sexit, ssucc = "(XSS (SS_run [SRecvOk; SSendMsg] "+res+"))", oc == "ok"
+							case "cancel", "deadline", "read-failure":
+								go func() { cmds <- "recv"; <-acks; close(cmds) }() // the handler is waiting for a message
+								synctest.Wait()
+								switch oc {
+								case "cancel":
+									cancel()
+								case "deadline":
+									// the handler's context (GRPC-Timeout) expires at the same virtual instant as the
+									// caller's: keep the server's trailer in flight so that the caller's own
+									// deadline is what ends the stream at the client (otherwise a genuine race)
+									l.mu.Lock()
+									l.Auto = false
+									l.mu.Unlock()
+									time.Sleep(2 * time.Hour)
+								case "read-failure":
+									l.C.FailRead(errInjected)
+								}
+								synctest.Wait()
+								recv()
+								if oc == "deadline" {
+									l.mu.Lock()
+									l.Auto = true
+									l.mu.Unlock()
+									for l.StepS2C() {
+									}
+									for l.StepC2S() {
+									}
+									synctest.Wait()
+								}
+								cexit = "(XCS CSO_ok [PFail])"
+								sexit = "(XSS (SS_run [SRecvOther] RErr))"
+							case "undecodable-metadata":
+								tamper()
+								synctest.Wait()
+								recv()
+								close(cmds)
+								cexit = "(XCS CSO_ok [PReset])"
+								sexit = "(XSS SS_bad_metadata)"
+							}
+						}
+					}
+					synctest.Wait()
+					l.C.FailRead(io.EOF)
+					l.S.FailRead(io.EOF)
+					synctest.Wait()
+					<-ret
+					select {
+					case <-cmds:
+					default:
+						if mi >= 0 && oc == "failed-open" {
+							close(cmds)
+						}
+					}
+				})
+				rpc := "unary"
+				if mi >= 0 {
+					rpc = streams[mi].name
+				}
+				tags := []string{"role=e2e", "rpc=" + rpc, "outcome=" + oc}
+				ctags, stags := append([]string(nil), tags...), append([]string(nil), tags...)
+				if oc == "handler-eof" {
+					stags = append(stags, "sig:server-end-eof-nil")
+				}
+				emitStats(em, &idx, "stats-e2e-client", map[string]any{"rpc": rpc, "outcome": oc}, append(ctags, "side=client"), cexit, ch, 1, cfin, csucc)
+				if sexit != "" {
+					emitStats(em, &idx, "stats-e2e-server", map[string]any{"rpc": rpc, "outcome": oc}, append(stags, "side=server"), sexit, sh, 1, true, ssucc)
+				} else {
+					// no RPC reaches a handler: the server's stats handlers must have seen nothing
+					for i, h := range sh {
+						evs, stray := h.rpc(1)
+						em.Emit(Rec{Idx: idx, Kind: "stats-e2e-server", Desc: map[string]any{"rpc": rpc, "outcome": oc, "h": i, "nh": nh},
+							Tags: append(append([]string(nil), stags...), "side=server", "server=untouched"),
+							Coq:  fmt.Sprintf("CStats (XSS SS_bad_metadata) %d %d true false %s %d", nh, i, coqList(evs), stray)})
+						idx++
+					}
+				}
+				em.Marker("end", first)
+			}
+		}
+	}
 }
